@@ -30,7 +30,7 @@ type env struct {
 	rnd   *h.Rand
 	w     *h.RecvWorker
 	known map[string]int // failures with a known signature written out so far, per operation
-	goods [][]byte // well-formed messages generated for the current case
+	goods [][]byte       // well-formed messages generated for the current case
 }
 
 // fail records an oracle failure; failures that match a known signature are
@@ -100,6 +100,22 @@ func (e *env) mergeCase(seqs []uint32, datas [][]byte) {
 			}
 			e.fail(c, sig, fmt.Sprintf("mergeChunks loses data: got %s want %s", impl, h.Hex(all)))
 		}
+	}
+}
+
+// dupCase: a chunk list that contains one verbatim copy directly behind its original.
+func (e *env) dupCase(seqs []uint32, datas [][]byte, want []byte) {
+	e.mergeCase(seqs, datas) // model against implementation
+	chunks := make([]*uasc.MessageChunk, len(seqs))
+	var toks []string
+	for i := range seqs {
+		chunks[i] = &uasc.MessageChunk{MessageHeader: &uasc.MessageHeader{SequenceHeader: &uasc.SequenceHeader{SequenceNumber: seqs[i], RequestID: 1}}, Data: datas[i]}
+		toks = append(toks, fmt.Sprintf("%d:%s", seqs[i], h.Hex(datas[i])))
+	}
+	b, err := uasc.VerifMergeChunks(chunks)
+	e.r.Hit("merge:adjacent-verbatim-copy")
+	if err != nil || h.Hex(b) != h.Hex(want) {
+		e.fail("merge "+strings.Join(toks, " "), "", fmt.Sprintf("a verbatim copy directly behind its original is not dropped (or more is dropped): got %s want %s", h.Hex(b), h.Hex(want)))
 	}
 }
 
@@ -588,6 +604,26 @@ func main() {
 			datas[j] = e.rnd.Bytes(e.rnd.Intn(5))
 		}
 		e.mergeCase(seqs, datas)
+	}
+	// verbatim copies directly behind their original (what the duplicate filter is for), at every
+	// position, with numberings from 0, through the wrap-around and elsewhere: the copy must be
+	// dropped and nothing else — reference: the concatenation of the originals
+	for _, start := range []uint32{0, 1, 4294967293, 4294967294, 4294967295, 77} {
+		for n := 2; n <= 4; n++ {
+			for dup := 0; dup < n; dup++ {
+				var seqs []uint32
+				var datas [][]byte
+				var want []byte
+				for j := 0; j < n; j++ {
+					d := e.rnd.Bytes(1 + e.rnd.Intn(3))
+					seqs, datas, want = append(seqs, start+uint32(j)), append(datas, d), append(want, d...)
+					if j == dup {
+						seqs, datas = append(seqs, start+uint32(j)), append(datas, d)
+					}
+				}
+				e.dupCase(seqs, datas, want)
+			}
+		}
 	}
 	// ---- B
 	nconf, nhost := o.N(350, 4000), o.N(250, 2500)
